@@ -19,6 +19,7 @@ def analyse(ctx: CheckContext, p: Program):
     ctx.guard(inval.check_stale_derived, ctx, eng, funcs)
     ctx.guard(inval.check_source_column_readonly, ctx, eng)
     ctx.guard(inval.check_mirrored_branches, ctx, eng)
+    ctx.guard(inval.check_between_pinches, ctx, p, r)
     # the rebase amount is trustworthy: the returned count is the number of rows the buffer grew by
     ctx.guard(tables.check_insert_count, ctx, p, r)
 
@@ -33,6 +34,10 @@ def run(ctx: CheckContext):
         "numpy semantics: table.col[...] is a view of the buffer that insert_temperature_interval replaces",
     ]
     g = "OpenPinch/analysis/gcc_manipulation.py"
+    run_control(ctx, "C07/last-row-between-pinches-kept", analyse, p.root, "OpenPinch/analysis/gcc_manipulation.py",
+                "for j in range(hot_pinch_loc + 1, cold_pinch_loc):", "for j in range(hot_pinch_loc + 1, cold_pinch_loc - 1):", "BETWEEN")
+    run_control(ctx, "C07/zeroing-into-a-copy", analyse, p.root, "OpenPinch/analysis/gcc_manipulation.py",
+                "            pt.loc[j, col_H_NP] = 0", "            pt.cols[[col_H_NP]][j] = 0", "LOST-UPDATE")
     run_control(ctx, "C07/stale-pinch-copy", analyse, p.root, g,
                 "                    cold_pinch_loc += n_int_added\n                    pinch_loc += n_int_added\n", "                    cold_pinch_loc += n_int_added\n", "INVAL-I3")
     run_control(ctx, "C07/view-refresh-deleted", analyse, p.root, g,
